@@ -6,7 +6,7 @@
 // interpreter (to success or to a planted failure), and then, for every
 // described object and every mutator (the methods discovered from AttrNames,
 // the interpreter's assignment opcodes, the Go API), attempts the mutation on
-// a fresh instance and records error / no error and the object's contents
+// a fresh Instance and records error / no error and the object's contents
 // before and after.  One JSON object per graph; every graph runs in a child
 // process so that a fatal error (stack overflow in Freeze) is observable.
 package main
@@ -25,618 +25,10 @@ import (
 	"time"
 
 	"go.starlark.net/starlark"
-	"go.starlark.net/starlarkstruct"
-	"go.starlark.net/syntax"
 
+	"verifharness/internal/graphs"
 	"verifharness/internal/hx"
 )
-
-// ---------------------------------------------------------------- description
-
-type Val [2]int64 // {0,a}: the integer atom a; {1,id}: reference to node id
-
-func atom(a int64) Val    { return Val{0, a} }
-func ref(id int) Val      { return Val{1, int64(id)} }
-func (v Val) isRef() bool { return v[0] == 1 }
-
-type Node struct {
-	ID        int    `json:"id"`
-	Kind      string `json:"kind"` // list dict set tuple struct func bound
-	Host      bool   `json:"host,omitempty"`
-	PreFrozen bool   `json:"prefrozen,omitempty"`
-	Exists    bool   `json:"exists"` // created before a failure planted inside build()
-	Elems     []Val  `json:"elems"`  // final contents (dict: k,v,k,v,...; struct: field values in order f0,f1,..)
-	Defaults  []Val  `json:"defaults,omitempty"`
-	Captures  []int  `json:"captures,omitempty"`
-	Recv      int    `json:"recv,omitempty"`
-	Method    string `json:"method,omitempty"`
-	init      []Val
-}
-
-type Link struct {
-	Node int
-	K    Val // dict only
-	V    Val
-}
-
-type Stmt struct {
-	New  int // node id, or -1
-	Link *Link
-}
-
-type Desc struct {
-	Nodes      []*Node `json:"nodes"`
-	Globals    []int   `json:"globals"`     // node ids bound to g0, g1, ... in this order
-	FailGlobal int     `json:"fail_global"` // execution fails before global #k is assigned (-1: never)
-	FailBuild  int     `json:"fail_build"`  // execution fails inside build() before statement #k (-1: never)
-	stmts      []Stmt
-}
-
-var methodsOf = map[string][]string{
-	"list": {"append", "clear", "extend", "index", "insert", "pop", "remove"},
-	"dict": {"clear", "get", "items", "keys", "pop", "popitem", "setdefault", "update", "values"},
-	"set":  {"add", "clear", "discard", "pop", "remove", "update", "union", "difference"},
-}
-
-func (d *Desc) hashable(v Val) bool {
-	if !v.isRef() {
-		return true
-	}
-	n := d.Nodes[v[1]]
-	switch n.Kind {
-	case "list", "dict", "set":
-		return false
-	case "tuple", "struct":
-		for _, e := range n.init {
-			if !d.hashable(e) {
-				return false
-			}
-		}
-		return true
-	}
-	return true // func, bound
-}
-
-func (nd *Node) add(kind string, k, v Val) {
-	if kind == "dict" {
-		nd.Elems = append(nd.Elems, k, v)
-	} else {
-		nd.Elems = append(nd.Elems, v)
-	}
-}
-
-func hasKey(kind string, elems []Val, k Val) bool {
-	step := 1
-	if kind == "dict" {
-		step = 2
-	}
-	for j := 0; j < len(elems); j += step {
-		if elems[j] == k {
-			return true
-		}
-	}
-	return false
-}
-
-func gen(r *hx.Rand) *Desc {
-	d := &Desc{FailGlobal: -1, FailBuild: -1}
-	nhost := r.Intn(3)
-	if r.Intn(4) == 0 {
-		nhost = 0
-	}
-	n := nhost + 2 + r.Intn(9)
-	anyVal := func(upto int) Val { // a value available when node `upto` is created
-		if upto == 0 || r.Intn(3) == 0 {
-			return atom(int64(r.Intn(6)))
-		}
-		return ref(r.Intn(upto))
-	}
-	for id := 0; id < n; id++ {
-		nd := &Node{ID: id, Exists: true}
-		host := id < nhost
-		nd.Host = host
-		kinds := []string{"list", "list", "dict", "dict", "set", "tuple", "struct", "func", "func", "bound"}
-		if host {
-			kinds = []string{"list", "dict", "set"}
-		}
-		nd.Kind = hx.Pick(r, kinds)
-		if nd.Kind == "bound" {
-			// receiver: an earlier list/dict/set
-			var cands []int
-			for j := 0; j < id; j++ {
-				if _, ok := methodsOf[d.Nodes[j].Kind]; ok {
-					cands = append(cands, j)
-				}
-			}
-			if len(cands) == 0 {
-				nd.Kind = "list"
-			} else {
-				nd.Recv = hx.Pick(r, cands)
-				nd.Method = hx.Pick(r, methodsOf[d.Nodes[nd.Recv].Kind])
-			}
-		}
-		k := r.Intn(4)
-		switch nd.Kind {
-		case "list":
-			for i := 0; i < k; i++ {
-				nd.init = append(nd.init, anyVal(id))
-			}
-		case "tuple", "struct":
-			nd.init = append(nd.init, atom(int64(1000+id))) // unique tag: tuples and structs compare structurally
-			for i := 0; i < k; i++ {
-				nd.init = append(nd.init, anyVal(id))
-			}
-		case "dict":
-			for i := 0; i < k; i++ {
-				key := atom(int64(10 + i))
-				if r.Intn(3) == 0 {
-					if c := anyVal(id); c.isRef() && d.hashable(c) {
-						key = c
-					}
-				}
-				if !hasKey("dict", nd.init, key) {
-					nd.init = append(nd.init, key, anyVal(id))
-				}
-			}
-		case "set":
-			for i := 0; i < k; i++ {
-				e := atom(int64(20 + i))
-				if r.Intn(3) == 0 {
-					if c := anyVal(id); c.isRef() && d.hashable(c) {
-						e = c
-					}
-				}
-				if !hasKey("set", nd.init, e) {
-					nd.init = append(nd.init, e)
-				}
-			}
-		case "func":
-			ndef := r.Intn(3)
-			for i := 0; i < ndef; i++ {
-				nd.Defaults = append(nd.Defaults, anyVal(id))
-			}
-			nc := r.Intn(3)
-			for i := 0; i < nc; i++ {
-				c := nhost + r.Intn(n-nhost) // any variable of build(): earlier, the function itself, or later
-				dup := false
-				for _, x := range nd.Captures {
-					if x == c {
-						dup = true
-					}
-				}
-				if !dup {
-					nd.Captures = append(nd.Captures, c)
-				}
-			}
-			if len(nd.Defaults)+len(nd.Captures) == 0 {
-				nd.Defaults = []Val{atom(0)}
-			}
-		}
-		nd.Elems = append([]Val{}, nd.init...)
-		d.Nodes = append(d.Nodes, nd)
-		d.stmts = append(d.stmts, Stmt{New: id})
-		if host {
-			if r.Intn(4) == 0 {
-				nd.PreFrozen = true
-			}
-			if id == nhost-1 {
-				// a pre-frozen host value was frozen deeply (by the host, before the module ran)
-				for changed := true; changed; {
-					changed = false
-					for _, x := range d.Nodes {
-						if x.PreFrozen {
-							for _, e := range x.Elems {
-								if e.isRef() && !d.Nodes[e[1]].PreFrozen {
-									d.Nodes[e[1]].PreFrozen = true
-									changed = true
-								}
-							}
-						}
-					}
-				}
-			}
-			continue
-		}
-		// links: mutate an earlier (or this) container so that it refers to this node: cycles
-		nl := r.Intn(3)
-		for t := 0; t < nl; t++ {
-			tgt := r.Intn(id + 1)
-			tn := d.Nodes[tgt]
-			if tn.PreFrozen {
-				continue
-			}
-			v := ref(id)
-			if r.Intn(4) == 0 {
-				v = anyVal(id + 1)
-			}
-			switch tn.Kind {
-			case "list":
-				tn.add("list", v, v)
-				d.stmts = append(d.stmts, Stmt{New: -1, Link: &Link{Node: tgt, V: v}})
-			case "dict":
-				key := atom(int64(100 + len(tn.Elems)))
-				if v.isRef() && d.hashable(v) && r.Intn(2) == 0 && !hasKey("dict", tn.Elems, v) {
-					key, v = v, atom(int64(r.Intn(6))) // the new object as a KEY
-				}
-				tn.add("dict", key, v)
-				d.stmts = append(d.stmts, Stmt{New: -1, Link: &Link{Node: tgt, K: key, V: v}})
-			case "set":
-				if d.hashable(v) && !hasKey("set", tn.Elems, v) {
-					tn.add("set", v, v)
-					d.stmts = append(d.stmts, Stmt{New: -1, Link: &Link{Node: tgt, V: v}})
-				}
-			}
-		}
-	}
-	ng := r.Intn(4)
-	for i := 0; i < ng; i++ {
-		d.Globals = append(d.Globals, r.Intn(n))
-	}
-	switch r.Intn(10) {
-	case 0, 1:
-		d.FailGlobal = r.Intn(ng + 1)
-	case 2:
-		d.FailBuild = r.Intn(len(d.stmts) + 1)
-		// contents and existence at the point of failure
-		for _, nd := range d.Nodes {
-			nd.Exists = nd.Host
-			nd.Elems = append([]Val{}, nd.init...)
-		}
-		for i, s := range d.stmts {
-			if i >= d.FailBuild {
-				break
-			}
-			if s.New >= 0 {
-				d.Nodes[s.New].Exists = true
-			} else {
-				tn := d.Nodes[s.Link.Node]
-				tn.add(tn.Kind, s.Link.K, s.Link.V)
-			}
-		}
-	}
-	return d
-}
-
-func (d *Desc) expr(v Val) string {
-	if !v.isRef() {
-		return fmt.Sprint(v[1])
-	}
-	if d.Nodes[v[1]].Host {
-		return fmt.Sprintf("h%d", v[1])
-	}
-	return fmt.Sprintf("n%d", v[1])
-}
-
-func (d *Desc) exprs(vs []Val) string {
-	var s []string
-	for _, v := range vs {
-		s = append(s, d.expr(v))
-	}
-	return strings.Join(s, ", ")
-}
-
-const prelude = `def _apply(t, opn, a, b):
-    if opn == "setindex":
-        t[a] = b
-    elif opn == "iadd":
-        t += a
-    elif opn == "ior":
-        t |= a
-    elif opn == "setfield":
-        t.f0 = a
-    else:
-        return getattr(t, opn)(*a)
-`
-
-func (d *Desc) source() string {
-	var b strings.Builder
-	b.WriteString(prelude)
-	b.WriteString("def build():\n")
-	for i, s := range d.stmts {
-		if i == d.FailBuild {
-			b.WriteString("    boom()\n")
-		}
-		if s.New >= 0 {
-			nd := d.Nodes[s.New]
-			if nd.Host {
-				continue
-			}
-			id := nd.ID
-			switch nd.Kind {
-			case "list":
-				fmt.Fprintf(&b, "    n%d = reg(%d, [%s])\n", id, id, d.exprs(nd.init))
-			case "tuple":
-				fmt.Fprintf(&b, "    n%d = reg(%d, (%s,))\n", id, id, d.exprs(nd.init))
-			case "set":
-				fmt.Fprintf(&b, "    n%d = reg(%d, set([%s]))\n", id, id, d.exprs(nd.init))
-			case "dict":
-				var kv []string
-				for j := 0; j+1 < len(nd.init); j += 2 {
-					kv = append(kv, d.expr(nd.init[j])+": "+d.expr(nd.init[j+1]))
-				}
-				fmt.Fprintf(&b, "    n%d = reg(%d, {%s})\n", id, id, strings.Join(kv, ", "))
-			case "struct":
-				var fs []string
-				for j, v := range nd.init {
-					fs = append(fs, fmt.Sprintf("f%d=%s", j, d.expr(v)))
-				}
-				fmt.Fprintf(&b, "    n%d = reg(%d, struct(%s))\n", id, id, strings.Join(fs, ", "))
-			case "bound":
-				fmt.Fprintf(&b, "    n%d = reg(%d, %s.%s)\n", id, id, d.expr(ref(nd.Recv)), nd.Method)
-			case "func":
-				params := "which=None, opn=None, a=None, b=None"
-				var tup []string
-				for _, c := range nd.Captures {
-					tup = append(tup, fmt.Sprintf("n%d", c))
-				}
-				for j, v := range nd.Defaults {
-					params += fmt.Sprintf(", d%d=%s", j, d.expr(v))
-					tup = append(tup, fmt.Sprintf("d%d", j))
-				}
-				fmt.Fprintf(&b, "    def f%d(%s):\n        return _apply((%s,)[which], opn, a, b)\n", id, params, strings.Join(tup, ", "))
-				fmt.Fprintf(&b, "    n%d = reg(%d, f%d)\n", id, id, id)
-			}
-		} else {
-			l := s.Link
-			switch d.Nodes[l.Node].Kind {
-			case "list":
-				fmt.Fprintf(&b, "    %s.append(%s)\n", d.expr(ref(l.Node)), d.expr(l.V))
-			case "dict":
-				fmt.Fprintf(&b, "    %s[%s] = %s\n", d.expr(ref(l.Node)), d.expr(l.K), d.expr(l.V))
-			case "set":
-				fmt.Fprintf(&b, "    %s.add(%s)\n", d.expr(ref(l.Node)), d.expr(l.V))
-			}
-		}
-	}
-	if d.FailBuild == len(d.stmts) {
-		b.WriteString("    boom()\n")
-	}
-	b.WriteString("    return None\n")
-	b.WriteString("build()\n")
-	for i, g := range d.Globals {
-		if i == d.FailGlobal {
-			b.WriteString("boom()\n")
-		}
-		fmt.Fprintf(&b, "g%d = pick(%d)\n", i, g)
-	}
-	if d.FailGlobal == len(d.Globals) {
-		b.WriteString("boom()\n")
-	}
-	return b.String()
-}
-
-// ------------------------------------------------------------------ instance
-
-type instance struct {
-	d       *Desc
-	objs    []starlark.Value // by node id (nil: never created)
-	globals starlark.StringDict
-	err     error
-	thread  *starlark.Thread
-	predecl starlark.StringDict
-}
-
-func (in *instance) value(v Val) starlark.Value {
-	if !v.isRef() {
-		return starlark.MakeInt64(v[1])
-	}
-	return in.objs[v[1]]
-}
-
-var fileOpts = &syntax.FileOptions{Set: true, GlobalReassign: true, TopLevelControl: true}
-
-func instantiate(d *Desc, src string) *instance {
-	in := &instance{d: d, objs: make([]starlark.Value, len(d.Nodes)), thread: &starlark.Thread{Name: "c04"}}
-	pre := starlark.StringDict{
-		"struct": starlark.NewBuiltin("struct", starlarkstruct.Make),
-		"reg": starlark.NewBuiltin("reg", func(_ *starlark.Thread, _ *starlark.Builtin, args starlark.Tuple, _ []starlark.Tuple) (starlark.Value, error) {
-			id, _ := starlark.AsInt32(args[0])
-			in.objs[id] = args[1]
-			return args[1], nil
-		}),
-		"pick": starlark.NewBuiltin("pick", func(_ *starlark.Thread, _ *starlark.Builtin, args starlark.Tuple, _ []starlark.Tuple) (starlark.Value, error) {
-			id, _ := starlark.AsInt32(args[0])
-			if in.objs[id] == nil {
-				return starlark.None, nil
-			}
-			return in.objs[id], nil
-		}),
-		"boom": starlark.NewBuiltin("boom", func(_ *starlark.Thread, _ *starlark.Builtin, _ starlark.Tuple, _ []starlark.Tuple) (starlark.Value, error) {
-			return nil, fmt.Errorf("planted failure")
-		}),
-	}
-	// host values, created (and possibly frozen) by the host before the module runs
-	for _, nd := range d.Nodes {
-		if !nd.Host {
-			continue
-		}
-		switch nd.Kind {
-		case "list":
-			var es []starlark.Value
-			for _, e := range nd.init {
-				es = append(es, in.value(e))
-			}
-			in.objs[nd.ID] = starlark.NewList(es)
-		case "dict":
-			dd := starlark.NewDict(4)
-			for j := 0; j+1 < len(nd.init); j += 2 {
-				dd.SetKey(in.value(nd.init[j]), in.value(nd.init[j+1]))
-			}
-			in.objs[nd.ID] = dd
-		case "set":
-			s := starlark.NewSet(4)
-			for _, e := range nd.init {
-				s.Insert(in.value(e))
-			}
-			in.objs[nd.ID] = s
-		}
-		pre[fmt.Sprintf("h%d", nd.ID)] = in.objs[nd.ID]
-	}
-	for _, nd := range d.Nodes {
-		if nd.Host && nd.PreFrozen {
-			in.objs[nd.ID].Freeze()
-		}
-	}
-	in.predecl = pre
-	in.globals, in.err = starlark.ExecFileOptions(fileOpts, in.thread, "m.star", src, pre)
-	return in
-}
-
-func sameObj(a, b starlark.Value) bool {
-	if a == nil || b == nil {
-		return false
-	}
-	ta, ok1 := a.(starlark.Tuple)
-	tb, ok2 := b.(starlark.Tuple)
-	if ok1 || ok2 {
-		return ok1 && ok2 && len(ta) > 0 && len(ta) == len(tb) && &ta[0] == &tb[0]
-	}
-	switch a.(type) {
-	case *starlark.List, *starlark.Dict, *starlark.Set, *starlark.Function, *starlark.Builtin, *starlarkstruct.Struct:
-		return a == b
-	}
-	return false
-}
-
-func (in *instance) idOf(v starlark.Value) (Val, bool) {
-	if v == nil {
-		return Val{2, 0}, true // an unassigned cell
-	}
-	if i, ok := v.(starlark.Int); ok {
-		if x, ok := i.Int64(); ok {
-			return atom(x), true
-		}
-	}
-	for id, o := range in.objs {
-		if sameObj(o, v) {
-			return ref(id), true
-		}
-	}
-	if v == starlark.None {
-		return Val{2, 1}, true
-	}
-	return Val{3, 0}, false // a value the description does not know
-}
-
-// children through the Go API, as values
-func childrenOf(v starlark.Value) []starlark.Value {
-	var out []starlark.Value
-	switch v := v.(type) {
-	case *starlark.List:
-		for i := 0; i < v.Len(); i++ {
-			out = append(out, v.Index(i))
-		}
-	case starlark.Tuple:
-		out = append(out, v...)
-	case *starlark.Dict:
-		for _, it := range v.Items() {
-			out = append(out, it[0], it[1])
-		}
-	case *starlark.Set:
-		it := v.Iterate()
-		var x starlark.Value
-		for it.Next(&x) {
-			out = append(out, x)
-		}
-		it.Done()
-	case *starlarkstruct.Struct:
-		for _, name := range v.AttrNames() {
-			x, _ := v.Attr(name)
-			out = append(out, x)
-		}
-	case *starlark.Function:
-		for i := 0; i < v.NumParams(); i++ {
-			if dv := v.ParamDefault(i); dv != nil {
-				out = append(out, dv)
-			}
-		}
-		for i := 0; i < v.NumFreeVars(); i++ {
-			_, fv := v.FreeVar(i)
-			if fv != nil {
-				out = append(out, fv)
-			}
-		}
-	case *starlark.Builtin:
-		if r := v.Receiver(); r != nil {
-			out = append(out, r)
-		}
-	}
-	return out
-}
-
-func (in *instance) contents(id int) []Val {
-	var out []Val
-	for _, c := range childrenOf(in.objs[id]) {
-		v, _ := in.idOf(c)
-		if v[0] == 2 {
-			continue // None defaults of the probe parameters
-		}
-		out = append(out, v)
-	}
-	return out
-}
-
-// walk: the described objects reachable from the module's globals through the Go API
-func (in *instance) walk() []int {
-	var seen []starlark.Value
-	var todo []starlark.Value
-	names := in.globals.Keys()
-	for _, k := range names {
-		todo = append(todo, in.globals[k])
-	}
-	for len(todo) > 0 {
-		v := todo[len(todo)-1]
-		todo = todo[:len(todo)-1]
-		dup := false
-		for _, s := range seen {
-			if sameObj(s, v) {
-				dup = true
-			}
-		}
-		switch v.(type) {
-		case *starlark.List, *starlark.Dict, *starlark.Set, *starlark.Function, *starlark.Builtin, *starlarkstruct.Struct, starlark.Tuple:
-		default:
-			continue
-		}
-		if dup {
-			continue
-		}
-		seen = append(seen, v)
-		todo = append(todo, childrenOf(v)...)
-	}
-	var ids []int
-	for id, o := range in.objs {
-		for _, s := range seen {
-			if sameObj(o, s) {
-				ids = append(ids, id)
-				break
-			}
-		}
-	}
-	return ids
-}
-
-func (in *instance) snapshot() [][]Val {
-	out := make([][]Val, len(in.objs))
-	for id := range in.objs {
-		if in.objs[id] != nil {
-			out[id] = in.contents(id)
-		}
-	}
-	return out
-}
-
-func eqVals(a, b []Val) bool {
-	if len(a) != len(b) {
-		return false
-	}
-	for i := range a {
-		if a[i] != b[i] {
-			return false
-		}
-	}
-	return true
-}
 
 // ------------------------------------------------------------------ operations
 
@@ -675,19 +67,19 @@ func opsFor(d *Desc, nd *Node, r *hx.Rand) []Op {
 	n := int64(0)
 	pay := func() Val {
 		if r.Intn(2) == 0 {
-			return atom(int64(40 + r.Intn(5)))
+			return graphs.Atom(int64(40 + r.Intn(5)))
 		}
 		for t := 0; t < 8; t++ {
 			c := r.Intn(len(d.Nodes))
 			if d.Nodes[c].Exists {
-				return ref(c)
+				return graphs.Ref(c)
 			}
 		}
-		return atom(41)
+		return graphs.Atom(41)
 	}
 	var atomsIn []int64
 	for i, e := range nd.Elems {
-		if !e.isRef() && (nd.Kind != "dict" || i%2 == 0) {
+		if !e.IsRef() && (nd.Kind != "dict" || i%2 == 0) {
 			atomsIn = append(atomsIn, e[1])
 		}
 	}
@@ -739,30 +131,30 @@ func opsFor(d *Desc, nd *Node, r *hx.Rand) []Op {
 }
 
 // the Starlark-level spelling of an operation: method name + args, or an opcode of _apply
-func (in *instance) spell(op Op) (name string, a, b starlark.Value, isMethod bool) {
+func spell(in *Instance, op Op) (name string, a, b starlark.Value, isMethod bool) {
 	list := func(vs []Val) *starlark.List {
 		var es []starlark.Value
 		for _, v := range vs {
-			es = append(es, in.value(v))
+			es = append(es, in.Value(v))
 		}
 		return starlark.NewList(es)
 	}
 	kvlist := func(kvs []KV) *starlark.List {
 		var es []starlark.Value
 		for _, kv := range kvs {
-			es = append(es, starlark.Tuple{starlark.MakeInt64(kv.K), in.value(kv.V)})
+			es = append(es, starlark.Tuple{starlark.MakeInt64(kv.K), in.Value(kv.V)})
 		}
 		return starlark.NewList(es)
 	}
 	switch op.N {
 	case "LAppend":
-		return "append", starlark.Tuple{in.value(*op.V)}, nil, true
+		return "append", starlark.Tuple{in.Value(*op.V)}, nil, true
 	case "LClear", "DClear", "SClear":
 		return "clear", starlark.Tuple{}, nil, true
 	case "LExtend":
 		return "extend", starlark.Tuple{list(op.Vs)}, nil, true
 	case "LInsert":
-		return "insert", starlark.Tuple{starlark.MakeInt64(*op.I), in.value(*op.V)}, nil, true
+		return "insert", starlark.Tuple{starlark.MakeInt64(*op.I), in.Value(*op.V)}, nil, true
 	case "LPop":
 		if op.I == nil {
 			return "pop", starlark.Tuple{}, nil, true
@@ -771,29 +163,29 @@ func (in *instance) spell(op Op) (name string, a, b starlark.Value, isMethod boo
 	case "LRemove":
 		return "remove", starlark.Tuple{starlark.MakeInt64(*op.K)}, nil, true
 	case "LSetIndex":
-		return "setindex", starlark.MakeInt64(*op.I), in.value(*op.V), false
+		return "setindex", starlark.MakeInt64(*op.I), in.Value(*op.V), false
 	case "LInplaceAdd":
 		return "iadd", list(op.Vs), nil, false
 	case "DPop":
 		if op.D == nil {
 			return "pop", starlark.Tuple{starlark.MakeInt64(*op.K)}, nil, true
 		}
-		return "pop", starlark.Tuple{starlark.MakeInt64(*op.K), in.value(*op.D)}, nil, true
+		return "pop", starlark.Tuple{starlark.MakeInt64(*op.K), in.Value(*op.D)}, nil, true
 	case "DPopitem":
 		return "popitem", starlark.Tuple{}, nil, true
 	case "DSetdefault":
-		return "setdefault", starlark.Tuple{starlark.MakeInt64(*op.K), in.value(*op.D)}, nil, true
+		return "setdefault", starlark.Tuple{starlark.MakeInt64(*op.K), in.Value(*op.D)}, nil, true
 	case "DUpdate":
 		if len(op.KVs) == 0 && op.K != nil { // spelled d.update() with no argument
 			return "update", starlark.Tuple{}, nil, true
 		}
 		return "update", starlark.Tuple{kvlist(op.KVs)}, nil, true
 	case "DSetKey":
-		return "setindex", starlark.MakeInt64(*op.K), in.value(*op.V), false
+		return "setindex", starlark.MakeInt64(*op.K), in.Value(*op.V), false
 	case "DInplacePipe":
 		dd := starlark.NewDict(2)
 		for _, kv := range op.KVs {
-			dd.SetKey(starlark.MakeInt64(kv.K), in.value(kv.V))
+			dd.SetKey(starlark.MakeInt64(kv.K), in.Value(kv.V))
 		}
 		return "ior", dd, nil, false
 	case "SAdd":
@@ -818,28 +210,28 @@ func (in *instance) spell(op Op) (name string, a, b starlark.Value, isMethod boo
 		}
 		return "update", args, nil, true
 	case "XSetField":
-		return "setfield", in.value(*op.V), nil, false
+		return "setfield", in.Value(*op.V), nil, false
 	}
 	return "", nil, nil, false
 }
 
 func isGoOp(n string) bool { return strings.HasPrefix(n, "Go") }
 
-func (in *instance) applyGo(id int, op Op) (err error, skipped bool) {
-	switch x := in.objs[id].(type) {
+func applyGo(in *Instance, id int, op Op) (err error, skipped bool) {
+	switch x := in.Objs[id].(type) {
 	case *starlark.List:
 		switch op.N {
 		case "GoLAppend":
-			return x.Append(in.value(*op.V)), false
+			return x.Append(in.Value(*op.V)), false
 		case "GoLClear":
 			return x.Clear(), false
 		case "GoLSetIndex":
-			return x.SetIndex(int(*op.I), in.value(*op.V)), false
+			return x.SetIndex(int(*op.I), in.Value(*op.V)), false
 		}
 	case *starlark.Dict:
 		switch op.N {
 		case "GoDSetKey":
-			return x.SetKey(starlark.MakeInt64(*op.K), in.value(*op.V)), false
+			return x.SetKey(starlark.MakeInt64(*op.K), in.Value(*op.V)), false
 		case "GoDDelete":
 			_, _, err := x.Delete(starlark.MakeInt64(*op.K))
 			return err, false
@@ -860,28 +252,28 @@ func (in *instance) applyGo(id int, op Op) (err error, skipped bool) {
 	return nil, true
 }
 
-// vias: the ways this operation can be performed on node id in this instance
-func (in *instance) vias(id int, op Op) []string {
+// vias: the ways this operation can be performed on node id in this Instance
+func vias(in *Instance, id int, op Op) []string {
 	if isGoOp(op.N) {
 		return []string{"go"}
 	}
-	name, _, _, isMethod := in.spell(op)
+	name, _, _, isMethod := spell(in, op)
 	out := []string{"mod"}
 	if isMethod {
 		out = append(out, "api")
-		for _, nd := range in.d.Nodes {
-			if nd.Kind == "bound" && nd.Exists && nd.Recv == id && nd.Method == name && in.objs[nd.ID] != nil {
+		for _, nd := range in.D.Nodes {
+			if nd.Kind == "bound" && nd.Exists && nd.Recv == id && nd.Method == name && in.Objs[nd.ID] != nil {
 				out = append(out, fmt.Sprintf("bound%d", nd.ID))
 			}
 		}
 	}
-	for _, nd := range in.d.Nodes {
-		if nd.Kind != "func" || !nd.Exists || in.objs[nd.ID] == nil {
+	for _, nd := range in.D.Nodes {
+		if nd.Kind != "func" || !nd.Exists || in.Objs[nd.ID] == nil {
 			continue
 		}
 		usable := true // the closure builds a tuple of all its captured variables
 		for _, c := range nd.Captures {
-			if !in.d.Nodes[c].Exists {
+			if !in.D.Nodes[c].Exists {
 				usable = false
 			}
 		}
@@ -894,7 +286,7 @@ func (in *instance) vias(id int, op Op) []string {
 			}
 		}
 		for j, dv := range nd.Defaults {
-			if dv.isRef() && int(dv[1]) == id {
+			if dv.IsRef() && int(dv[1]) == id {
 				out = append(out, fmt.Sprintf("clo%d.%d", nd.ID, len(nd.Captures)+j))
 			}
 		}
@@ -902,17 +294,17 @@ func (in *instance) vias(id int, op Op) []string {
 	return out
 }
 
-func (in *instance) apply(id int, op Op, via string) (err error) {
+func apply(in *Instance, id int, op Op, via string) (err error) {
 	defer func() {
 		if e := recover(); e != nil {
 			err = fmt.Errorf("PANIC: %v", e)
 		}
 	}()
 	if via == "go" {
-		e, _ := in.applyGo(id, op)
+		e, _ := applyGo(in, id, op)
 		return e
 	}
-	name, a, b, _ := in.spell(op)
+	name, a, b, _ := spell(in, op)
 	if a == nil {
 		a = starlark.None
 	}
@@ -920,7 +312,7 @@ func (in *instance) apply(id int, op Op, via string) (err error) {
 		b = starlark.None
 	}
 	th := &starlark.Thread{Name: "probe"}
-	tgt := in.objs[id]
+	tgt := in.Objs[id]
 	switch {
 	case via == "api":
 		m, e := starlark.Value(nil), error(nil)
@@ -933,7 +325,7 @@ func (in *instance) apply(id int, op Op, via string) (err error) {
 		_, err = starlark.Call(th, m, a.(starlark.Tuple), nil)
 		return err
 	case via == "mod":
-		f := in.globals["_apply"]
+		f := in.Globals["_apply"]
 		if f == nil {
 			return fmt.Errorf("no _apply")
 		}
@@ -942,68 +334,22 @@ func (in *instance) apply(id int, op Op, via string) (err error) {
 	case strings.HasPrefix(via, "bound"):
 		var bid int
 		fmt.Sscanf(via, "bound%d", &bid)
-		_, err = starlark.Call(th, in.objs[bid], a.(starlark.Tuple), nil)
+		_, err = starlark.Call(th, in.Objs[bid], a.(starlark.Tuple), nil)
 		return err
 	case strings.HasPrefix(via, "clo"):
 		var fid, j int
 		fmt.Sscanf(via, "clo%d.%d", &fid, &j)
-		_, err = starlark.Call(th, in.objs[fid], starlark.Tuple{starlark.MakeInt(j), starlark.String(name), a, b}, nil)
+		_, err = starlark.Call(th, in.Objs[fid], starlark.Tuple{starlark.MakeInt(j), starlark.String(name), a, b}, nil)
 		return err
 	}
 	return fmt.Errorf("unknown via %s", via)
-}
-
-// ------------------------------------------------- oracle on the description
-
-func (d *Desc) reach() map[int]bool {
-	seen := map[int]bool{}
-	var todo []int
-	for i, g := range d.Globals {
-		if d.FailBuild >= 0 {
-			break // execution failed inside build(): no g_i was assigned
-		}
-		if d.FailGlobal >= 0 && i >= d.FailGlobal {
-			break
-		}
-		if d.Nodes[g].Exists {
-			todo = append(todo, g)
-		}
-	}
-	for len(todo) > 0 {
-		x := todo[len(todo)-1]
-		todo = todo[:len(todo)-1]
-		if seen[x] {
-			continue
-		}
-		seen[x] = true
-		nd := d.Nodes[x]
-		var next []Val
-		next = append(next, nd.Elems...)
-		next = append(next, nd.Defaults...)
-		for _, v := range next {
-			if v.isRef() && d.Nodes[v[1]].Exists {
-				todo = append(todo, int(v[1]))
-			}
-		}
-		if nd.Kind == "func" {
-			for _, c := range nd.Captures {
-				if d.Nodes[c].Exists {
-					todo = append(todo, c)
-				}
-			}
-		}
-		if nd.Kind == "bound" {
-			todo = append(todo, nd.Recv)
-		}
-	}
-	return seen
 }
 
 func noopCase(nd *Node, cur []Val, op Op) bool {
 	switch op.N {
 	case "DSetdefault":
 		for j := 0; j+1 < len(cur); j += 2 {
-			if !cur[j].isRef() && cur[j][1] == *op.K {
+			if !cur[j].IsRef() && cur[j][1] == *op.K {
 				return true
 			}
 		}
@@ -1039,6 +385,13 @@ var knownReaders = map[string]map[string]bool{
 	"set":  {"difference": true, "intersection": true, "issubset": true, "issuperset": true, "symmetric_difference": true, "union": true},
 }
 
+type (
+	Val      = graphs.Val
+	Node     = graphs.Node
+	Desc     = graphs.Desc
+	Instance = graphs.Instance
+)
+
 // ----------------------------------------------------------------------- run
 
 type GraphOut struct {
@@ -1056,6 +409,8 @@ type GraphOut struct {
 	EnvOK    bool     `json:"env_ok"`
 	EnvNote  string   `json:"env_note,omitempty"`
 	Readers  int      `json:"readers"`
+	StormOps int      `json:"storm_ops"`
+	Storm    string   `json:"storm,omitempty"`
 	ReadViol []string `json:"read_viol,omitempty"`
 }
 
@@ -1069,17 +424,17 @@ func universeSnapshot() map[string]starlark.Value {
 
 func runGraph(seed uint64, i int, maxProbes int) GraphOut {
 	r := hx.NewRand(seed*1000003 + uint64(i))
-	d := gen(r)
-	src := d.source()
+	d := graphs.Gen(r)
+	src := d.Source()
 	out := GraphOut{Kind: "graph", I: i, Desc: d, Src: src, EnvOK: true}
 	hx.Emit(map[string]any{"kind": "begin", "i": i, "src": src})
 	hx.Flush()
 
 	uni := universeSnapshot()
-	in := instantiate(d, src)
-	out.Failed = in.err != nil
-	if in.err != nil {
-		out.ExecErr = in.err.Error()
+	in := graphs.Instantiate(d, src)
+	out.Failed = in.Err != nil
+	if in.Err != nil {
+		out.ExecErr = in.Err.Error()
 		if !strings.Contains(out.ExecErr, "planted failure") {
 			out.Gaps = append(out.Gaps, "generator: module failed unexpectedly: "+out.ExecErr)
 		}
@@ -1099,31 +454,31 @@ func runGraph(seed uint64, i int, maxProbes int) GraphOut {
 			wantPre++
 		}
 	}
-	if len(in.predecl) != wantPre {
+	if len(in.Predecl) != wantPre {
 		out.EnvOK, out.EnvNote = false, "predeclared changed size"
 	}
 	for _, nd := range d.Nodes {
-		if nd.Host && in.predecl[fmt.Sprintf("h%d", nd.ID)] != in.objs[nd.ID] {
+		if nd.Host && in.Predecl[fmt.Sprintf("h%d", nd.ID)] != in.Objs[nd.ID] {
 			out.EnvOK, out.EnvNote = false, "predeclared entry rebound"
 		}
 	}
-	for k := range in.globals {
-		if _, ok := in.predecl[k]; ok {
+	for k := range in.Globals {
+		if _, ok := in.Predecl[k]; ok {
 			out.EnvOK, out.EnvNote = false, "global shadows predeclared: "+k
 		}
 	}
 	// roots
 	for gi, g := range d.Globals {
-		if v, ok := in.globals[fmt.Sprintf("g%d", gi)]; ok {
-			if sameObj(v, in.objs[g]) {
+		if v, ok := in.Globals[fmt.Sprintf("g%d", gi)]; ok {
+			if graphs.SameObj(v, in.Objs[g]) {
 				out.Roots = append(out.Roots, g)
 			} else if v != starlark.None {
 				out.Gaps = append(out.Gaps, fmt.Sprintf("generator: global g%d is not node %d", gi, g))
 			}
 		}
 	}
-	out.Walk = in.walk()
-	reach := d.reach()
+	out.Walk = in.Walk()
+	reach := d.Reach()
 	for id := range d.Nodes {
 		if reach[id] {
 			out.Reach = append(out.Reach, id)
@@ -1132,8 +487,8 @@ func runGraph(seed uint64, i int, maxProbes int) GraphOut {
 	sort.Ints(out.Reach)
 	// contents as described?
 	for _, nd := range d.Nodes {
-		if !nd.Exists || in.objs[nd.ID] == nil {
-			if nd.Exists != (in.objs[nd.ID] != nil) {
+		if !nd.Exists || in.Objs[nd.ID] == nil {
+			if nd.Exists != (in.Objs[nd.ID] != nil) {
 				out.Gaps = append(out.Gaps, fmt.Sprintf("generator: node %d existence differs", nd.ID))
 			}
 			continue
@@ -1144,30 +499,30 @@ func runGraph(seed uint64, i int, maxProbes int) GraphOut {
 			want = append(want, nd.Defaults...)
 			for _, c := range nd.Captures {
 				if d.Nodes[c].Exists {
-					want = append(want, ref(c))
+					want = append(want, graphs.Ref(c))
 				}
 			}
 		}
 		if nd.Kind == "bound" {
-			want = []Val{ref(nd.Recv)}
+			want = []Val{graphs.Ref(nd.Recv)}
 		}
-		got := in.contents(nd.ID)
+		got := in.Contents(nd.ID)
 		if nd.Kind == "func" {
 			// FreeVars are ordered by first use; compare as multisets
-			sortVals(want)
-			sortVals(got)
+			graphs.SortVals(want)
+			graphs.SortVals(got)
 		}
-		if !eqVals(want, got) {
+		if !graphs.EqVals(want, got) {
 			out.Gaps = append(out.Gaps, fmt.Sprintf("generator: node %d (%s) has contents %v, described %v", nd.ID, nd.Kind, got, want))
 		}
 	}
 
 	// mutators discovered from AttrNames
 	for _, nd := range d.Nodes {
-		if in.objs[nd.ID] == nil {
+		if in.Objs[nd.ID] == nil {
 			continue
 		}
-		if ha, ok := in.objs[nd.ID].(starlark.HasAttrs); ok && knownMutators[nd.Kind] != nil {
+		if ha, ok := in.Objs[nd.ID].(starlark.HasAttrs); ok && knownMutators[nd.Kind] != nil {
 			for _, name := range ha.AttrNames() {
 				if !knownMutators[nd.Kind][name] && !knownReaders[nd.Kind][name] {
 					g := fmt.Sprintf("method %s.%s is not known to the model", nd.Kind, name)
@@ -1185,7 +540,7 @@ func runGraph(seed uint64, i int, maxProbes int) GraphOut {
 		}
 	}
 
-	// probes: every existing node x every operation, each on a fresh instance
+	// probes: every existing node x every operation, each on a fresh Instance
 	type job struct {
 		id int
 		op Op
@@ -1208,19 +563,19 @@ func runGraph(seed uint64, i int, maxProbes int) GraphOut {
 		jobs = jobs[:maxProbes]
 	}
 	for _, jb := range jobs {
-		fresh := instantiate(d, src)
+		fresh := graphs.Instantiate(d, src)
 		nd := d.Nodes[jb.id]
-		if fresh.objs[jb.id] == nil {
+		if fresh.Objs[jb.id] == nil {
 			continue
 		}
-		vias := fresh.vias(jb.id, jb.op)
+		vias := vias(fresh, jb.id, jb.op)
 		via := vias[r.Intn(len(vias))]
 		if jb.op.N == "DUpdate" && len(jb.op.KVs) == 0 && r.Bool() {
 			jb.op.K = i64(0) // spelled d.update()
 		}
-		before := fresh.snapshot()
-		err := fresh.apply(jb.id, jb.op, via)
-		after := fresh.snapshot()
+		before := fresh.Snapshot()
+		err := apply(fresh, jb.id, jb.op, via)
+		after := fresh.Snapshot()
 		p := Probe{Node: jb.id, Op: jb.op, Via: via, Err: err != nil}
 		if err != nil {
 			p.Msg = err.Error()
@@ -1229,7 +584,7 @@ func runGraph(seed uint64, i int, maxProbes int) GraphOut {
 			}
 		}
 		for id := range before {
-			if !eqVals(before[id], after[id]) {
+			if !graphs.EqVals(before[id], after[id]) {
 				if id == jb.id {
 					p.After = after[id]
 					if p.After == nil {
@@ -1257,12 +612,38 @@ func runGraph(seed uint64, i int, maxProbes int) GraphOut {
 		out.Probes = append(out.Probes, p)
 	}
 
+	// storm: every operation on every object that must be immutable, one after the
+	// other on ONE instance -- no sequence of operations changes anything
+	{
+		st := graphs.Instantiate(d, src)
+		before := st.Snapshot()
+		for _, jb := range jobs {
+			nd := d.Nodes[jb.id]
+			if st.Objs[jb.id] == nil {
+				continue
+			}
+			if !(reach[jb.id] || nd.PreFrozen || !(nd.Kind == "list" || nd.Kind == "dict" || nd.Kind == "set")) {
+				continue
+			}
+			vs := vias(st, jb.id, jb.op)
+			apply(st, jb.id, jb.op, vs[r.Intn(len(vs))])
+			out.StormOps++
+		}
+		after := st.Snapshot()
+		for id := range before {
+			if !graphs.EqVals(before[id], after[id]) {
+				out.Storm = fmt.Sprintf("node %d (%s) changed from %v to %v", id, d.Nodes[id].Kind, before[id], after[id])
+				break
+			}
+		}
+	}
+
 	// read-only methods and operations never change anything (volume check, Go side only)
-	fresh := instantiate(d, src)
-	before := fresh.snapshot()
+	fresh := graphs.Instantiate(d, src)
+	before := fresh.Snapshot()
 	th := &starlark.Thread{Name: "read"}
 	for _, nd := range d.Nodes {
-		v := fresh.objs[nd.ID]
+		v := fresh.Objs[nd.ID]
 		if v == nil {
 			continue
 		}
@@ -1292,22 +673,13 @@ func runGraph(seed uint64, i int, maxProbes int) GraphOut {
 			}
 		}
 	}
-	after := fresh.snapshot()
+	after := fresh.Snapshot()
 	for id := range before {
-		if !eqVals(before[id], after[id]) {
+		if !graphs.EqVals(before[id], after[id]) {
 			out.ReadViol = append(out.ReadViol, fmt.Sprintf("node %d (%s) changed under read-only operations", id, d.Nodes[id].Kind))
 		}
 	}
 	return out
-}
-
-func sortVals(vs []Val) {
-	sort.Slice(vs, func(i, j int) bool {
-		if vs[i][0] != vs[j][0] {
-			return vs[i][0] < vs[j][0]
-		}
-		return vs[i][1] < vs[j][1]
-	})
 }
 
 func child(seed uint64, from, to, maxProbes int) {
